@@ -238,13 +238,19 @@ def border_rule(ctx, p, K):
               CMP(Poly.fn("sum", E_("M", y, sl(ZERO, x))), "==", x))
     trues = [(v, g, n) for v, g, n in S.returns if isinstance(v, Const) and v.v is True]
     falses = [(v, g, n) for v, g, n in S.returns if isinstance(v, Const) and v.v is False]
-    ok = len(trues) == 1 and len(falses) == 1
+    # the function answers True exactly on the paths that end in `return True`: the disjunction of their path conditions must be (propositionally) the four-direction test,
+    # however the four tests are sequenced (one `or`, a chain of guard clauses, a final `return bool(test)`)
+    from ..forms import cond_equiv
+    ok = len(trues) >= 1 and len(falses) >= 1 and len(trues) + len(falses) == len(S.returns)
     det = ""
     if ok:
-        gg = real_guards(trues[0][1])
-        got = norm_cond(gg[0]) if len(gg) == 1 else norm_cond(AND(*gg))
-        det = str(got)[:400]
-        ok = got == norm_cond(want)
+        arms = []
+        for v_, g_, n_ in trues:
+            gg = real_guards(g_)
+            arms.append(gg[0] if len(gg) == 1 else AND(*gg))
+        got = arms[0] if len(arms) == 1 else OR(*arms)
+        det = str(norm_cond(got))[:400]
+        ok = cond_equiv(got, want, limit=12)
     ctx.ob(rule, f.key, ok, where=f, node=f.node, construct=det,
            message="border test must be: all pixels strictly above (count y), to the right (W-x-1), below (H-y-1) or to the left (x) of the pixel, along its own column / row, are masked - in at least one direction")
     # border list: edge pixels passing the border test, in edge (slim) order
